@@ -14,7 +14,7 @@ does not depend on the values of the symbols; pairs whose difference is symbolic
 """
 import os
 import sys
-from nk.facts import kids, strip, const, callee, show, walk, call_args
+from nk.facts import kids, strip, const, callee, ckey, show, walk, call_args
 from nk.report import Ob, RuleResult, DISCHARGED, VIOLATED, OBSERVATION
 from nk.build import AnalysisBroken
 from nk.cfg import dominators
@@ -1000,3 +1000,68 @@ def _run(prog, cg, limit):
            RuleResult('RUN-COVER', cobs, 0, {'decoders_decided': ncov}))
     _RUN_CACHE[id(prog)] = out
     return out
+
+
+def helper_base(prog, floor=1):
+    """HELPER-BASE (C08): a decoder that delegates an operand to a helper as `return helper(memory, .., address + K, ..) + C`
+    passes the position of the operand (K) and adds the bytes in front of it plus what the helper itself always reads (C);
+    for one helper C - K is therefore the same at every call site.  A site where it differs reports a length that stops
+    before (or runs past) the bytes the helper read."""
+    sites = {}
+    for fn in prog.functions(lambda f: f.file.startswith('disasm/') and f.blocks):
+        ap = [p for p in fn.params() if p.get('n') == 'address']
+        if not ap:
+            continue
+        ad = ap[0]['d']
+        L = None
+        for n in fn.nodes.values():
+            if n['k'] != 'ReturnStmt' or not kids(n):
+                continue
+            e = strip(kids(n)[0], casts=True)
+            C = 0
+            call = None
+            if e['k'] == 'BinaryOperator' and e.get('op') == '+':
+                a, b = strip(kids(e)[0], casts=True), strip(kids(e)[1], casts=True)
+                if a['k'] == 'CallExpr' and const(b) is not None:
+                    call, C = a, const(b)
+                elif b['k'] == 'CallExpr' and const(a) is not None:
+                    call, C = b, const(a)
+            elif e['k'] == 'CallExpr':
+                call = e
+            if call is None or not callee(call):
+                continue
+            f2 = prog.by_key.get(ckey(call)) if 'ckey' in globals() else None
+            if L is None:
+                L = Lin(fn)
+            K = None
+            for a_ in call_args(call):
+                lf = L.lin(a_)
+                if lf is not None and lf[0] == {ad: 1}:
+                    K = lf[1]
+            if K is None:
+                continue
+            sites.setdefault((fn.file, callee(call).split('(')[0]), []).append((fn, n, K, C))
+    obs = []
+    for (file, helper), lst in sorted(sites.items()):
+        if len(lst) < 2:
+            continue
+        diffs = {}
+        for fn, n, K, C in lst:
+            diffs.setdefault(C - K, []).append((fn, n, K, C))
+        if len(diffs) == 1:
+            obs.append(Ob('HELPER-BASE', file, lst[0][1]['l'], lst[0][0].q, 'helper:%s' % helper, DISCHARGED, '',
+                          '%d call sites, all with C - K = %d' % (len(lst), list(diffs)[0]), True))
+        else:
+            major = max(diffs.items(), key=lambda kv: len(kv[1]))[0]
+            tie = sum(1 for v in diffs.values() if len(v) == len(diffs[major])) > 1
+            for dv, l2 in sorted(diffs.items()):
+                if dv == major and not tie:
+                    continue
+                for fn, n, K, C in l2:
+                    obs.append(Ob('HELPER-BASE', file, n['l'], fn.q, 'helper:%s@%d' % (helper, K), VIOLATED,
+                                  '`%s` hands %s the operand at address+%d and adds %d, the other call site(s) add %d more than '
+                                  'the offset they pass (here %d): the reported length does not cover the bytes the helper reads, or '
+                                  'runs past them' % (show(kids(n)[0])[:50], helper, K, C, major, dv)))
+    if len(obs) < floor:
+        raise AnalysisBroken('HELPER-BASE: no helper with two delegating call sites')
+    return RuleResult('HELPER-BASE', obs, floor, {})
